@@ -12,6 +12,19 @@ from vlib.seqrun import run_batch, ddmin
 
 LEVEL = "proof"
 PROPS = "PdshVerif.Props.C13"
+MANIFEST = dict(
+    engine="cbuf",
+    technique="Lean 4 proof (index model refines FIFO spec, invariant by induction over operations) + "
+              "differential correspondence of cbuf.c against the compiled model",
+    text="Theorems in lean/PdshVerif/Props/C13.lean about the index-level model of cbuf.c (all op sequences, "
+         "all sizes, all three modes); the model is executed against the real cbuf.c (assertions+ASan and "
+         "shipped flavour) on generated op histories, and the real code is also compared op by op with the "
+         "plain FIFO specification, which yields the failing history as replay.",
+    design_ref="DESIGN.md section 5 C13",
+    note="Lean 4.33 kernel; axioms propext/Classical.choice/Quot.sound at most (audited per theorem every run); "
+         "hand-written model tied to cbuf.c by differential execution of the real source built from /repo's "
+         "working tree plus constants regenerated from /repo; read(2)/pipe, memcpy/memmove/realloc modelled not "
+         "verified; per-cbuf mutex not modelled; harness, generators, gcc, ASan/UBSan trusted")
 CHUNK = 1000
 
 
@@ -156,7 +169,7 @@ def nontrivial(ans):
 
 def run(ctx):
     rng = ctx.rng
-    ctx.gen_consts()
+    ctx.gen_consts(["cbuf"])
     ctx.lean_build([PROPS, "pdshmodel"])
     ctx.audit(PROPS)
     exe_dbg = os.path.join(ctx.scratch, "cbuf_dbg")
